@@ -41,3 +41,10 @@ add("C15",
     "Every recorded history is accepted by TLC only if some linearisation is a behaviour of RpcQueueSeq (results, FIFO order per class, urgent first, full exactly at capacity, who may remain blocked).",
     "Trusts: the Go runtime's sync.Cond/sync.Mutex/context.AfterFunc semantics as modelled; synctest quiescence detection; the forced interleaving needs ~2 ms real time for the AfterFunc goroutine. The stress part samples schedules.",
     "DESIGN.md section 4 C15")
+
+add("C03",
+    "TLA+ decision table over abstract message classes checked exhaustively by TLC (model checking of the abstraction) + every class concretised with real Ed25519/RSA keys, replayed on real nodes and judged by a TLC monitor with an independent crypto oracle",
+    "TLA+ does not model signatures: SigPolicy.tla models the acceptance RULE. TLC enumerates all 1492 realisable message classes (from/seqno/key/signature/unknown-field/sender classes) x 10 constructible policy x author-mode configurations and the sending table, and checks CodeAccept => (signature carried => Authentic) /\\ (StrictSign => signed) /\\ (StrictNoSign => unsigned, anonymous => no from/seqno/key) /\\ not self-origin; five regression configurations (no key-to-author match, lax policies not verifying, no self-origin test, key ignored in anonymous mode, missing signature tolerated) must fail. "
+    "Real code: each class (quick: seeded covering subset incl. all cfg x key x sig triples; thorough: the full table plus random byte-level mutations) is built by signing per the pubsub spec and tampering exactly as the class says, injected alone by fake peers (as author with Ed25519/RSA host ids, or third party) into real gossipsub and floodsub nodes under every policy x author mode; delivery (Subscription.Next), forwarding (observer peer in the mesh), reject reasons and the oracle's verdict are logged and TLC evaluates the predicates on every line; the node's own publications (default/custom/per-publish key/no author) are verified by the same oracle at the receiver.",
+    "Level: model checking of the abstraction (DESIGN section 6). Trusts: crypto.Verify is sound; the oracle shares the protobuf codec and go-libp2p crypto/peer with the code but nothing of package pubsub; bytes outside every class are only sampled (fuzz lines). Zero-length fields and attached keys that do not match an inline id are judged leniently (conformance drift only). The node under test always has an Ed25519 host id.",
+    "DESIGN.md section 4 C03, section 6, section 9")
